@@ -1,6 +1,6 @@
 (* C08/Proofs6.v — what the completely written temporary file holds: for saves whose tensors are
-   in-memory, lazy or third-party multi-chunk tensors (no ExternalTensor input) it is exactly
-   [image]: every tensor's bytes at its offset over an empty file. *)
+   in-memory, lazy or third-party multi-chunk tensors (no ExternalTensor among the inputs) it is
+   exactly [image]: every tensor's bytes at its offset over an empty file. *)
 From Coq Require Import List Bool Arith Lia NArith.
 From IRV Require Import Base.Exn C08.Model C08.Proofs1 C08.Proofs2 C08.Proofs3 C08.Proofs4 C08.Proofs5.
 Import ListNotations.
@@ -8,10 +8,17 @@ Import ListNotations.
 Lemma skipn_app_exact {A} (l r : list A) n : skipn (length l + n) (l ++ r) = skipn n r.
 Proof. induction l; simpl; [reflexivity|exact IHl]. Qed.
 
-Lemma write_at_app f off a b :
-  write_at (write_at f off a) (off + length a) b = write_at f off (a ++ b).
+Lemma skipn_skipn' {A} (l : list A) : forall y x, skipn x (skipn y l) = skipn (y + x) l.
 Proof.
-  unfold write_at.
+  induction l as [|a l IH]; intros y x.
+  - rewrite !skipn_nil. reflexivity.
+  - destruct y; simpl; [reflexivity|apply IH].
+Qed.
+
+Lemma write_raw_app f off a b :
+  write_at_raw (write_at_raw f off a) (off + length a) b = write_at_raw f off (a ++ b).
+Proof.
+  unfold write_at_raw.
   set (P := firstn off (f ++ repeat 0%N (off - length f))).
   assert (HP : length P = off).
   { unfold P. rewrite firstn_length, app_length, repeat_length. lia. }
@@ -25,8 +32,20 @@ Proof.
   rewrite E1.
   assert (E2 : skipn (off + length a + length b) (P ++ a ++ R) = skipn (off + length (a ++ b)) f).
   { rewrite app_assoc. replace (off + length a + length b) with (length (P ++ a) + length b) by (rewrite app_length; lia).
-    rewrite skipn_app_exact. unfold R. rewrite skipn_skipn. f_equal. rewrite app_length. lia. }
+    rewrite skipn_app_exact. unfold R. rewrite skipn_skipn'. f_equal. rewrite app_length. lia. }
   rewrite E2. rewrite <- !app_assoc. reflexivity.
+Qed.
+
+Lemma write_at_app f off a b :
+  write_at (write_at f off a) (off + length a) b = write_at f off (a ++ b).
+Proof.
+  destruct a as [|x a].
+  - simpl. rewrite Nat.add_0_r. reflexivity.
+  - destruct b as [|y b].
+    + rewrite app_nil_r. reflexivity.
+    + change (write_at (write_at f off (x :: a)) (off + length (x :: a)) (y :: b))
+        with (write_at_raw (write_at_raw f off (x :: a)) (off + length (x :: a)) (y :: b)).
+      rewrite write_raw_app. reflexivity.
 Qed.
 
 Lemma perform_ok c a s s' : perform c a s = (s', SOk) -> sem a s = (s', Ok tt).
@@ -39,7 +58,20 @@ Proof.
   destruct (at_idx (fault_at c) (length (s_trace s)) && faultable a); [discriminate|auto].
 Qed.
 
-Definition no_ext (sp : tspec) : bool := match sp with TExt _ => false | _ => true end.
+Lemma exec_acts_cons_ok c a r s s' :
+  exec_acts c (a :: r) s = (s', SOk) -> exists s1, sem a s = (s1, Ok tt) /\ exec_acts c r s1 = (s', SOk).
+Proof.
+  rewrite exec_acts_cons. destruct (perform c a s) as [s1 [ |e| ]] eqn:E; try discriminate.
+  intros H. exists s1. split; [apply (perform_ok c); exact E | exact H].
+Qed.
+
+Lemma exec_acts_app_ok c l1 l2 s s' :
+  exec_acts c (l1 ++ l2) s = (s', SOk) -> exists s1, exec_acts c l1 s = (s1, SOk) /\ exec_acts c l2 s1 = (s', SOk).
+Proof.
+  rewrite exec_acts_app. destruct (exec_acts c l1 s) as [s1 [ |e| ]]; try discriminate. eauto.
+Qed.
+
+Definition no_ext (x : nat * tspec) : bool := match snd x with TExt _ => false | _ => true end.
 
 Section Image.
   Variable fs0 : fsT.
@@ -63,13 +95,126 @@ Section Image.
     induction chunks as [|ch r IH]; intros ra f s s' HC H.
     - destruct ra as [[|j]|]; simpl in H.
       + unfold perform in H. simpl in H. discriminate.
-      + inversion H; subst. simpl. destruct HC as [Hfd (m & Hl)]. split; [exact Hfd|]. exists m.
-        unfold write_at. simpl. rewrite app_nil_r.
-        rewrite Hl. f_equal. f_equal.
-        destruct (le_lt_dec (s_pos s') (length f)).
-        * replace (s_pos s' - length f) with 0 by lia. simpl. rewrite app_nil_r. apply firstn_skipn.
-        * admit.
-      + admit.
-    - admit.
-  Abort.
+      + inversion H; subst. exact HC.
+      + inversion H; subst. exact HC.
+    - assert (Hstep : forall ra', exec_acts c (AWrite ch :: multi_acts r ra') s = (s', SOk) ->
+                Cont (write_at f (s_pos s) (concat (ch :: r))) s').
+      { intros ra' H'. apply exec_acts_cons_ok in H'. destruct H' as (s1 & Hs & Hr). simpl in Hs.
+        destruct (do_write_Cont f s ch s1 HC Hs) as [HC1 Hp].
+        pose proof (IH ra' _ s1 s' HC1 Hr) as HC2. rewrite Hp in HC2. simpl concat.
+        rewrite write_at_app in HC2. exact HC2. }
+      destruct ra as [[|j]|]; simpl in H.
+      + unfold perform in H. simpl in H. discriminate.
+      + apply (Hstep (Some j)). exact H.
+      + apply (Hstep None). exact H.
+  Qed.
+
+  Lemma tofile_Cont c chunk sp f s s' :
+    no_ext (0, sp) = true -> Cont f s -> exec_acts c (tofile_acts tens chunk sp) s = (s', SOk) ->
+    Cont (write_at f (s_pos s) (tensor_bytes fs0 tens sp)) s'.
+  Proof.
+    intros Hne HC H. destruct sp as [d|h| |chunks ra]; cbn [tofile_acts tensor_bytes] in *.
+    - apply exec_acts_cons_ok in H. destruct H as (s1 & Hs & Hr). simpl in Hs, Hr. inversion Hr; subst.
+      apply (do_write_Cont f s d s' HC Hs).
+    - discriminate.
+    - simpl in H. unfold perform in H. simpl in H. discriminate.
+    - eapply multi_Cont; eauto.
+  Qed.
+
+  Lemma cb_Cont c cb i f s s' : Cont f s -> exec_acts c (cb_acts cb i) s = (s', SOk) -> Cont f s'.
+  Proof.
+    intros HC H. destruct cb as [[j|]|]; cbn [cb_acts] in H.
+    - apply exec_acts_cons_ok in H. destruct H as (s1 & Hs & Hr). simpl in Hs, Hr. inversion Hr; subst.
+      destruct (Nat.eqb i j); inversion Hs; subst; exact HC.
+    - apply exec_acts_cons_ok in H. destruct H as (s1 & Hs & Hr). simpl in Hs, Hr. inversion Hr; subst.
+      inversion Hs; subst; exact HC.
+    - inversion H; subst. exact HC.
+  Qed.
+
+  Lemma tensors_Cont c chunk cb l : forall i f s s',
+    forallb no_ext l = true -> Cont f s ->
+    exec_acts c (tensors_acts tens chunk cb i l) s = (s', SOk) ->
+    Cont (fold_left (fun g x => write_at g (fst x) (tensor_bytes fs0 tens (snd x))) l f) s'.
+  Proof.
+    induction l as [|[off sp] r IH]; intros i f s s' Hne HC H.
+    - simpl in H. inversion H; subst. exact HC.
+    - simpl in Hne. apply andb_prop in Hne. destruct Hne as [Hn1 Hn2].
+      cbn [tensors_acts] in H. apply exec_acts_app_ok in H. destruct H as (s1 & H1 & H).
+      pose proof (cb_Cont c cb i f s s1 HC H1) as HC1.
+      apply exec_acts_cons_ok in H. destruct H as (s2 & Hs & H).
+      assert (HC2 : Cont f s2 /\ s_pos s2 = off).
+      { simpl in Hs. destruct HC1 as [Hfd Hl]. rewrite Hfd in Hs. inversion Hs; subst. simpl. split; [split; [reflexivity|exact Hl]|reflexivity]. }
+      destruct HC2 as [HC2 Hp].
+      apply exec_acts_app_ok in H. destruct H as (s3 & H3 & H).
+      pose proof (tofile_Cont c chunk sp f s2 s3 Hn1 HC2 H3) as HC3. rewrite Hp in HC3.
+      simpl fold_left. eapply IH; eauto.
+  Qed.
 End Image.
+
+Lemma releases_fs c l : forall s s', exec_acts c (map ARelease l) s = (s', SOk) -> s_fs s' = s_fs s.
+Proof.
+  induction l as [|h r IH]; intros s s' H; simpl in H.
+  - inversion H; reflexivity.
+  - change (exec_acts c (ARelease h :: map ARelease r) s = (s', SOk)) in H.
+    apply exec_acts_cons_ok in H. destruct H as (s1 & Hs & Hr). simpl in Hs. inversion Hs; subst.
+    rewrite (IH _ _ Hr). reflexivity.
+Qed.
+
+Theorem prerepl_image fs0 tens sc c s1 d m :
+  InvA fs0 tens sc s1 ->
+  forallb no_ext (sc_tensors sc) = true ->
+  PreRepl fs0 tens sc c s1 d m ->
+  d = image fs0 tens (sc_tensors sc).
+Proof.
+  intros HA Hne (s3 & s4 & HB1 & HT & Hl).
+  set (dest := dest_of fs0 (sc_req sc)) in *.
+  set (tmpf := tmpf_of sc dest) in *.
+  assert (Hres : resolve (s_fs s1) tmpf = tmpf).
+  { destruct HA as [[HF _] _]. apply (resolve_S fs0 (T (sc_tmpd sc)) s1 tmpf HF). apply T_tmpf. }
+  unfold B1 in HB1. fold dest in HB1. fold tmpf in HB1. rewrite exec_seq, exec_pacts in HB1.
+  destruct (exec_acts c [AOpenW tmpf] s1) as [s2 r2] eqn:E2.
+  destruct r2; try discriminate.
+  apply exec_acts_cons_ok in E2. destruct E2 as (s2' & Hs & Hr). simpl in Hr. inversion Hr; subst s2'. clear Hr.
+  assert (HC2 : Cont tmpf [] s2).
+  { simpl in Hs. rewrite Hres in Hs.
+    destruct (lookup (s_fs s1) tmpf) as [[f0 m0| |t]|] eqn:El; try discriminate.
+    - inversion Hs; subst. split; [reflexivity|]. exists m0. simpl. apply lookup_insert_eq.
+    - destruct (parent_ok (s_fs s1) tmpf); try discriminate. inversion Hs; subst.
+      split; [reflexivity|]. exists default_mode. simpl. apply lookup_insert_eq. }
+  rewrite exec_try, !exec_pacts in HB1. unfold TENS in HB1.
+  destruct (exec_acts c (tensors_acts tens (sc_chunk sc) (sc_cb sc) (sc_cbbase sc) (sc_tensors sc)) s2) as [sx rx] eqn:Ex.
+  destruct rx as [ |e| ]; cbv iota beta in HB1; rewrite ?exec_pacts in HB1.
+  2:{ destruct (exec_acts c [AClose] sx) as [sy [ |e'| ]]; discriminate. }
+  2:{ discriminate. }
+  pose proof (tensors_Cont fs0 tens tmpf c _ _ _ _ _ _ _ Hne HC2 Ex) as HCx.
+  fold (image fs0 tens (sc_tensors sc)) in HCx.
+  apply exec_acts_cons_ok in HB1. destruct HB1 as (s3' & Hs3 & Hr3). simpl in Hs3, Hr3.
+  inversion Hr3; subst s3'. inversion Hs3; subst s3. clear Hr3 Hs3.
+  destruct HCx as [_ (mx & Hlx)].
+  (* the tail before the rename *)
+  unfold TAILPRE in HT. fold dest in HT. fold tmpf in HT.
+  apply exec_acts_app_ok in HT. destruct HT as (s5 & H5 & HT).
+  apply releases_fs in H5. simpl in H5.
+  apply exec_acts_cons_ok in HT. destruct HT as (s6 & Hs6 & HT). simpl in Hs6. inversion Hs6; subst s6. clear Hs6.
+  destruct (exists_ fs0 dest).
+  - apply exec_acts_cons_ok in HT. destruct HT as (s7 & Hs7 & HT). simpl in HT. inversion HT; subst s7. clear HT.
+    simpl in Hs7. rewrite H5 in Hs7. unfold resolve in Hs7. rewrite Hlx in Hs7. cbv iota beta in Hs7.
+    destruct (file_at (s_fs sx) dest) as [[d0 m0]|]; try discriminate.
+    rewrite ?Hlx in Hs7. inversion Hs7; subst s4. cbn [s_fs with_fs log] in Hl. rewrite lookup_insert_eq in Hl. inversion Hl. reflexivity.
+  - simpl in HT. inversion HT; subst s4. simpl in Hl. rewrite H5, Hlx in Hl. inversion Hl. reflexivity.
+Qed.
+
+Lemma crash_atomic_image :
+  forall fs0 tens small sc k, single_wf fs0 sc -> forallb no_ext (sc_tensors sc) = true ->
+  let dest := dest_of fs0 (sc_req sc) in
+  let s := fst (run_prefix k fs0 tens small sc) in
+  length (s_trace s) <= k /\
+  (lookup (s_fs s) dest = lookup fs0 dest
+   \/ exists m, lookup (s_fs s) dest = Some (File (image fs0 tens (sc_tensors sc)) m)
+        /\ In (OReplace (tmpf_of sc dest) dest) (s_trace s)).
+Proof.
+  intros fs0 tens small sc k Hwf Hne. cbv zeta. split; [apply prefix_len|].
+  destruct (interrupt_atomic fs0 tens small sc Hwf {| crash_at := Some k; fault_at := None |}) as [H|(d & m & Hl & Hin & s1 & HA & HP)].
+  - left. exact H.
+  - right. exists m. rewrite <- (prerepl_image fs0 tens sc _ s1 d m HA Hne HP). split; assumption.
+Qed.
